@@ -5,6 +5,7 @@
 
 #include <etl/_config/all.hpp>
 
+#include <etl/_3rd_party/gcem/gcem.hpp>
 #include <etl/_type_traits/is_constant_evaluated.hpp>
 
 namespace etl {
@@ -14,7 +15,7 @@ namespace detail {
 template <typename T>
 [[nodiscard]] constexpr auto signbit_fallback(T arg) noexcept -> bool
 {
-    return arg == T(-0.0) || arg < T(0);
+    return detail::gcem::signbit(arg);
 }
 
 } // namespace detail
